@@ -53,6 +53,9 @@ def generate(seed: int, tier: str, idx: int) -> dict:
     s = stream(seed, "c08")
     sc = gen.gen_scenario(seed, PROFILE)
     gen.make_restartable(sc)
+    if s.chance(0.4):
+        # output base names ending in digits or an underscore (the restart continues "<base>_NNN.nc")
+        sc["output"]["filename"] = s.pick(["run2.nc", "exp30.nc", "a_b.nc", "res_.nc", "t1000.nc"])
     # the youngest particles die soon after their release: before the next record (the counter is then
     # lost with them, the listed finding) or after one record but before the file is complete
     if s.chance(0.6) and not sc["release"].get("continuous"):
@@ -85,6 +88,10 @@ def step_of(sc, t) -> int:
 
 def file_no(name: str) -> int:
     return int(name.rsplit("_", 1)[1].split(".")[0])
+
+
+def stem_of(sc) -> str:
+    return sc["output"].get("filename", "out.nc")[:-3]
 
 
 def copy_world(src: Path, dst: Path) -> None:
@@ -174,7 +181,7 @@ def execute(sc) -> Result:
             elif foreign:
                 res.aborted_foreign += 1
             return res
-        U = readback.Records(readback.list_output_files(dU))
+        U = readback.Records(readback.list_output_files(dU, stem_of(sc)))
         for r in U.recs:
             res.feed(r["time"], *[r["data"][k] for k in sorted(r["data"])])
         Urec_by_time = {r["time"]: r for r in U.recs}
@@ -218,6 +225,7 @@ def execute(sc) -> Result:
 def self_restart(res: Result, sc, U, Urec_by_time, writesU, dU, k: int, s: int, pp: dict, chain: list, dirs: list, keys: list):
     p, numrec, nsteps = sc["output"]["period"], sc["output"]["numrec"], sc["time"]["nsteps"]
     dt = truth.dt_s(sc)
+    stem = stem_of(sc)
     # ---- generation 1: the original run, killed after s updates
     d1 = world.new_dir()
     dirs.append(d1)
@@ -237,13 +245,13 @@ def self_restart(res: Result, sc, U, Urec_by_time, writesU, dU, k: int, s: int, 
     dirs.append(d2)
     copy_world(dU, d2)
     for n in range(closed):
-        shutil.copy(d1 / f"out_{n:03d}.nc", d2 / f"out_{n:03d}.nc")
+        shutil.copy(d1 / f"{stem}_{n:03d}.nc", d2 / f"{stem}_{n:03d}.nc")
     world.rm_dir(d1)
     # sanity: the surviving restart file equals U's
-    a, b = readback.OutFile(d2 / f"out_{k:03d}.nc"), U.files[k]
+    a, b = readback.OutFile(d2 / f"{stem}_{k:03d}.nc"), U.files[k]
     for name in b.vars:
         if name not in a.vars or not np.array_equal(a.vars[name], b.vars[name], equal_nan=a.vars[name].dtype.kind == "f"):
-            res.add(Violation("C08.members", None, f"file out_{k:03d}.nc of the killed run: {name}", "differs from U", "identical"))
+            res.add(Violation("C08.members", None, f"file {stem}_{k:03d}.nc of the killed run: {name}", "differs from U", "identical"))
     t_restart = b.times[-1]
     rstep = step_of(sc, t_restart)
     # ---- the new stop
@@ -280,8 +288,8 @@ def self_restart(res: Result, sc, U, Urec_by_time, writesU, dU, k: int, s: int, 
     sched = refmodel.release_schedule(sc)
     if any(st > rstep for st in sched) :
         res.probes["pending_release_at_restart"] += 1
-    run2 = driver.run_scenario(sc, d2, write=False, warm_file=str(d2 / f"out_{k:03d}.nc"),
-                               out_name=f"out_{k + 1:03d}.nc", stop=stop, cfg_name="restart")
+    run2 = driver.run_scenario(sc, d2, write=False, warm_file=str(d2 / f"{stem}_{k:03d}.nc"),
+                               out_name=f"{stem}_{k + 1:03d}.nc", stop=stop, cfg_name="restart")
     account_run(res, run2, sc)
     res.faults["warm_start"] += 1
     keys.append(f"k{k}s{s}{pp['stop']}")
@@ -291,7 +299,12 @@ def self_restart(res: Result, sc, U, Urec_by_time, writesU, dU, k: int, s: int, 
             v.site = (site + " | " if site else "") + v.site
             res.add(v)
         return
-    R2 = readback.Records([f for f in readback.list_output_files(d2) if file_no(f.name) > k])
+    R2 = readback.Records([f for f in readback.list_output_files(d2, stem) if file_no(f.name) > k])
+    expect_names = {f"{stem}_{n:03d}.nc" for n in range(0, 2000)}
+    stray = sorted(p_.name for p_ in d2.glob("*.nc") if not p_.name.startswith(("grid", "forcing")) and p_.name not in expect_names)
+    if stray:
+        res.add(Violation("C08.file_names", None, f"gen 2 restart from {stem}_{k:03d}.nc", f"files {stray} written",
+                          f"files named {stem}_NNN.nc continuing the numbering", site=site))
     for r in R2.recs:
         res.feed(r["time"], *[r["data"][kk] for kk in sorted(r["data"])])
     ncmp = compare_to_U(res, sc, U, Urec_by_time, R2, np.datetime64(stop, "s"), k + 1, 2, site)
@@ -304,10 +317,10 @@ def self_restart(res: Result, sc, U, Urec_by_time, writesU, dU, k: int, s: int, 
     for ch in chain:
         gen_no += 1
         # completed files of the generation that just ran to its end: all its files; choose one to restart from
-        files = sorted(file_no(f.name) for f in readback.list_output_files(cur_dir) if file_no(f.name) >= cur_first)
+        files = sorted(file_no(f.name) for f in readback.list_output_files(cur_dir, stem) if file_no(f.name) >= cur_first)
         full = []
         for n in files:
-            f = readback.OutFile(cur_dir / f"out_{n:03d}.nc")
+            f = readback.OutFile(cur_dir / f"{stem}_{n:03d}.nc")
             if f.nrec == numrec:
                 full.append((n, f))
         if len(full) < 1:
@@ -324,9 +337,9 @@ def self_restart(res: Result, sc, U, Urec_by_time, writesU, dU, k: int, s: int, 
         dirs.append(dk)
         copy_world(dU, dk)
         for n in range(cur_first):
-            shutil.copy(cur_dir / f"out_{n:03d}.nc", dk / f"out_{n:03d}.nc")
-        runk = driver.run_scenario(sc, dk, write=False, warm_file=str(dk / f"out_{cur_first - 1:03d}.nc"),
-                                   out_name=f"out_{cur_first:03d}.nc", stop=truth.t_stop(sc), cfg_name="restart",
+            shutil.copy(cur_dir / f"{stem}_{n:03d}.nc", dk / f"{stem}_{n:03d}.nc")
+        runk = driver.run_scenario(sc, dk, write=False, warm_file=str(dk / f"{stem}_{cur_first - 1:03d}.nc"),
+                                   out_name=f"{stem}_{cur_first:03d}.nc", stop=truth.t_stop(sc), cfg_name="restart",
                                    crash_after=s2)
         account_run(res, runk, sc)
         res.faults["crash"] += 1
@@ -338,9 +351,9 @@ def self_restart(res: Result, sc, U, Urec_by_time, writesU, dU, k: int, s: int, 
         dirs.append(dn)
         copy_world(dU, dn)
         for n in range(cur_first + closed):
-            shutil.copy(dk / f"out_{n:03d}.nc", dn / f"out_{n:03d}.nc")
-        runn = driver.run_scenario(sc, dn, write=False, warm_file=str(dn / f"out_{n_from:03d}.nc"),
-                                   out_name=f"out_{n_from + 1:03d}.nc", stop=truth.t_stop(sc), cfg_name="restart")
+            shutil.copy(dk / f"{stem}_{n:03d}.nc", dn / f"{stem}_{n:03d}.nc")
+        runn = driver.run_scenario(sc, dn, write=False, warm_file=str(dn / f"{stem}_{n_from:03d}.nc"),
+                                   out_name=f"{stem}_{n_from + 1:03d}.nc", stop=truth.t_stop(sc), cfg_name="restart")
         account_run(res, runn, sc)
         res.faults["warm_start"] += 1
         keys.append(f"g{gen_no}from{n_from}s{s2}")
@@ -349,7 +362,7 @@ def self_restart(res: Result, sc, U, Urec_by_time, writesU, dU, k: int, s: int, 
             if v is not None:
                 res.add(v)
             break
-        Rn = readback.Records([f for f in readback.list_output_files(dn) if file_no(f.name) > n_from])
+        Rn = readback.Records([f for f in readback.list_output_files(dn, stem) if file_no(f.name) > n_from])
         for r in Rn.recs:
             res.feed(r["time"], *[r["data"][kk] for kk in sorted(r["data"])])
         site_n = ""
